@@ -68,6 +68,8 @@ type HTTPGroup struct {
 	domain          string
 	location        string
 	routeByHTTPUser string
+	username        string
+	password        string
 
 	// CreateConnFuncs indexed by proxy name
 	createFuncs map[string]vhost.CreateConnFunc
@@ -107,9 +109,14 @@ func (g *HTTPGroup) Register(
 		g.domain = routeConfig.Domain
 		g.location = routeConfig.Location
 		g.routeByHTTPUser = routeConfig.RouteByHTTPUser
+		g.username = routeConfig.Username
+		g.password = routeConfig.Password
 	} else {
+		// the route of the group carries the credentials of its first member: a proxy configured with other
+		// credentials must not be served through it
 		if g.group != group || g.domain != routeConfig.Domain ||
-			g.location != routeConfig.Location || g.routeByHTTPUser != routeConfig.RouteByHTTPUser {
+			g.location != routeConfig.Location || g.routeByHTTPUser != routeConfig.RouteByHTTPUser ||
+			g.username != routeConfig.Username || g.password != routeConfig.Password {
 			err = ErrGroupParamsInvalid
 			return
 		}
